@@ -373,44 +373,75 @@ func C18(tier string) int {
 		if err := ddb.Update(nil, func(ctx boltz.MutateContext) error { return w.tx1(ctx, noYield) }); err != nil {
 			panic(err)
 		}
-		dotRead := func(tx *bbolt.Tx) string {
-			ids, count, err := w.items.QueryIdsC(tx, w.qDot)
-			// a composite whose first hop is single-valued (fk), then a set: parsed per call, as an application would
-			ids2, count2, err2 := w.items.QueryIds(tx, `anyOf(peer.places.ptag) = "l2" or allOf(peer.places.label) = "zz"`)
-			return fmt.Sprintf("%v/%d/%v;%v/%d/%v", ids, count, err, ids2, count2, err2)
+		// every row gets a non-empty, different set behind the fk hop: i1 -> peer i2 -> {l1,l2}; i2 -> peer i1 -> {l2}
+		if err := ddb.Update(nil, func(ctx boltz.MutateContext) error { return w.lp.AddLinks(ctx.Tx(), "i1", "l2") }); err != nil {
+			panic(err)
 		}
-		var want string
-		_ = ddb.View(func(tx *bbolt.Tx) error { want = dotRead(tx); return nil })
-		got := make([]string, 2)
-		ex2 := &vsched.Explorer{Bound: bound, MaxSteps: 4000, MaxExecs: 100000}
-		ex2.KeyFn = func() string { return strings.Join(got, "|") }
-		ex2.Body = func() func() {
-			got[0], got[1] = "", ""
-			return func() {
-				for r := 0; r < 2; r++ {
-					r := r
-					vsync.Go0(func() {
-						_ = ddb.View(func(tx *bbolt.Tx) error { got[r] = dotRead(tx); return nil })
-					})
+		dotQueries := []struct {
+			name string
+			read func(tx *bbolt.Tx) string
+		}{
+			{`anyOf(places.ptag) = "l2" or allOf(places.label) = "zz" (set-first composite, parsed once)`, func(tx *bbolt.Tx) string {
+				ids, count, err := w.items.QueryIdsC(tx, w.qDot)
+				return fmt.Sprintf("%v/%d/%v", ids, count, err)
+			}},
+			// a composite whose first hop is single-valued (fk), then a set: parsed per call, as an application would
+			{`anyOf(peer.places.ptag) = "l1" or allOf(peer.places.label) = "zz" (fk-first composite)`, func(tx *bbolt.Tx) string {
+				ids, count, err := w.items.QueryIds(tx, `anyOf(peer.places.ptag) = "l1" or allOf(peer.places.label) = "zz"`)
+				return fmt.Sprintf("%v/%d/%v", ids, count, err)
+			}},
+			{`not isEmpty(peer.places) and allOf(peer.places.ptag) = "l2" (fk-first composite)`, func(tx *bbolt.Tx) string {
+				ids, count, err := w.items.QueryIds(tx, `not isEmpty(peer.places) and allOf(peer.places.ptag) = "l2"`)
+				return fmt.Sprintf("%v/%d/%v", ids, count, err)
+			}},
+		}
+		totalExecs := 0
+		capped := false
+		var serial []string
+		for _, dq := range dotQueries {
+			dq := dq
+			dotRead := dq.read
+			var want string
+			_ = ddb.View(func(tx *bbolt.Tx) error { want = dotRead(tx); return nil })
+			serial = append(serial, want)
+			got := make([]string, 2)
+			ex2 := &vsched.Explorer{Bound: bound, MaxSteps: 4000, MaxExecs: 100000}
+			ex2.KeyFn = func() string { return strings.Join(got, "|") }
+			ex2.Body = func() func() {
+				got[0], got[1] = "", ""
+				return func() {
+					for r := 0; r < 2; r++ {
+						r := r
+						vsync.Go0(func() {
+							_ = ddb.View(func(tx *bbolt.Tx) error { got[r] = dotRead(tx); return nil })
+						})
+					}
 				}
 			}
-		}
-		ex2.Check = func(x *vsched.Execution) {
-			rep.Count("transitions", int64(x.Steps))
-			replay := map[string]interface{}{"scenario": "two readers, dotted set symbol", "choices": x.Choices(), "schedule": x.Schedule()}
-			if x.Deadlock || len(x.Panics) > 0 || x.Hung != "" || x.Diverged != "" {
-				rep.Violation("C18|dotted-set-readers|abnormal", fmt.Sprintf("two readers: deadlock=%v panics=%v hung=%q diverged=%q", x.Deadlock, x.Panics, x.Hung, x.Diverged), replay)
-				return
-			}
-			for r := range got {
-				if got[r] != want {
-					rep.Violation("C18|dotted-set-readers|wrong-answer", fmt.Sprintf("reader %d evaluating %q concurrently with another reader got %s, serially %s", r, "anyOf(places.ptag) = \"l2\" or allOf(places.label) = \"zz\"", got[r], want), replay)
+			ex2.Check = func(x *vsched.Execution) {
+				rep.Count("transitions", int64(x.Steps))
+				replay := map[string]interface{}{"scenario": "two readers, dotted set symbol", "query": dq.name, "choices": x.Choices(), "schedule": x.Schedule()}
+				if x.Deadlock || len(x.Panics) > 0 || x.Hung != "" || x.Diverged != "" {
+					rep.Violation("C18|dotted-set-readers|abnormal", fmt.Sprintf("two readers: deadlock=%v panics=%v hung=%q diverged=%q", x.Deadlock, x.Panics, x.Hung, x.Diverged), replay)
 					return
 				}
+				for r := range got {
+					if got[r] != want {
+						rep.Violation("C18|dotted-set-readers|wrong-answer|"+dq.name, fmt.Sprintf("reader %d evaluating %s concurrently with another reader got %s, serially %s", r, dq.name, got[r], want), replay)
+						return
+					}
+				}
+				rep.Outcome("dotted-set-readers-agree")
 			}
-			rep.Outcome("dotted-set-readers-agree")
+			ex2.Explore()
+			totalExecs += ex2.Executions
+			capped = capped || ex2.Capped
 		}
-		ex2.Explore()
+		rep.Set("dotted_set_serial_answers", serial)
+		ex2 := struct {
+			Executions int
+			Capped     bool
+		}{totalExecs, capped}
 		_ = ddb.Close()
 		rep.Count("states", int64(ex2.Executions))
 		rep.Set("schedules_dotted_set_readers", ex2.Executions)
@@ -580,6 +611,15 @@ func RaceBodies() int {
 		var t string
 		_ = db.View(func(tx *bbolt.Tx) error {
 			ids, _, err := w.items.QueryIds(tx, `anyOf(places.label) = "L" or anyOf(places.id) = "l2"`)
+			t = fmt.Sprint(ids, err)
+			return nil
+		})
+		return t
+	}
+	bodies["reader(fk-first dotted set symbol query)"] = func() string {
+		var t string
+		_ = db.View(func(tx *bbolt.Tx) error {
+			ids, _, err := w.items.QueryIds(tx, `anyOf(peer.places.label) = "L" and anyOf(peer.places.id) = "l1"`)
 			t = fmt.Sprint(ids, err)
 			return nil
 		})
